@@ -27,6 +27,7 @@ pub fn run(ctx: &mut Ctx, prop: &str) {
             }
         }
         "C08" => all(ctx, prop, c08_case),
+        "C09" => c09(ctx),
         "C10" => all(ctx, prop, c10_case),
         "C11" => all(ctx, prop, c11_case),
         "C19" => all(ctx, prop, c19_case),
@@ -432,6 +433,96 @@ fn c11<S: Lc>(ctx: &mut Ctx, id: &str, rng: &mut Rng, spec: &Spec) {
     }
     ctx.rep.case(&format!("{} lock-step: open + batch over 2 point labels, event logs vs model", describe(run)),
         Some(format!("{}/c11/{:?}/{}/{}", S::NAME, spec.sizes, spec.wf, spec.sec)));
+}
+
+
+// ------------------------------------------------------------------------------------------------
+// C09: what `setup` installs and reports, `trim` hands out the parameters
+// ------------------------------------------------------------------------------------------------
+
+fn c09(ctx: &mut Ctx) {
+    use crate::generic::{BrakedownPC, MlLigeroPC, UniLigeroPC};
+    use crate::wire::{self, Req};
+    use ark_ff::FftField;
+    use ark_poly_commit::{PCCommitterKey, PCUniversalParams, PCVerifierKey, PolynomialCommitment};
+    fn bytes<T: CanonicalSerialize>(x: &T) -> Vec<u8> {
+        let mut b = vec![];
+        x.serialize_uncompressed(&mut b).unwrap();
+        b
+    }
+    let degrees: Vec<usize> = if ctx.thorough { vec![0, 1, 2, 17, 64, 1000, 1 << 20, 1 << 56, (1 << 56) + 1, usize::MAX] } else { vec![0, 1, 17, 1 << 56, (1 << 56) + 1, usize::MAX] };
+    for (i, d) in degrees.iter().enumerate() {
+        for scheme in 0..3usize {
+            let name = ["uni-ligero", "ml-ligero", "brakedown"][scheme];
+            let id = format!("C09/lincode-setup/{}/{}", name, i);
+            if !ctx.selected(&id) {
+                continue;
+            }
+            let mut rng = rng_for(ctx.seed, "C09/lincode-setup", (i * 3 + scheme) as u64);
+            let rp = |what: &str| format!("# scheme: {}\n# case: {}\n# seed: {}\n# setup(max_degree = {})\n# {}\n# rerun: .build/cargo/debug/pcv-harness C09 --seed {} --only {}\n", name, id, ctx.seed, d, what, ctx.seed, id);
+            let req = Req::new("lincode.setup")
+                .arg("scheme", wire::nat(if scheme == 2 { 1 } else { 0 }))
+                .arg("s", wire::nat(Fr::TWO_ADICITY as usize))
+                .arg("degree", wire::nat(*d));
+            // (sec, distance, wf, max_degree report, ck == pp == vk) of the real setup + trim
+            let obs: Result<(usize, (usize, usize), bool, usize, bool), String> = match scheme {
+                0 => match guarded(|| UniLigeroPC::setup(*d, None, &mut rng)) {
+                    Ok(Ok(pp)) => match guarded(|| UniLigeroPC::trim(&pp, *d, 0, None)) {
+                        Ok(Ok((ck, vk))) => Ok((ck.sec_param(), vk.distance(), ck.check_well_formedness(), PCUniversalParams::max_degree(&pp),
+                            bytes(&ck) == bytes(&pp) && bytes(&vk) == bytes(&pp) && PCCommitterKey::max_degree(&ck) == PCUniversalParams::max_degree(&pp) && PCVerifierKey::supported_degree(&vk) == PCUniversalParams::max_degree(&pp))),
+                        Ok(Err(e)) => Err(err_kind(&e)),
+                        Err(a) => Err(a),
+                    },
+                    Ok(Err(e)) => Err(err_kind(&e)),
+                    Err(a) => Err(a),
+                },
+                1 => match guarded(|| MlLigeroPC::setup(*d, Some(4), &mut rng)) {
+                    Ok(Ok(pp)) => match guarded(|| MlLigeroPC::trim(&pp, *d, 0, None)) {
+                        Ok(Ok((ck, vk))) => Ok((ck.sec_param(), vk.distance(), ck.check_well_formedness(), PCUniversalParams::max_degree(&pp),
+                            bytes(&ck) == bytes(&pp) && bytes(&vk) == bytes(&pp) && PCCommitterKey::max_degree(&ck) == PCUniversalParams::max_degree(&pp) && PCVerifierKey::supported_degree(&vk) == PCUniversalParams::max_degree(&pp))),
+                        Ok(Err(e)) => Err(err_kind(&e)),
+                        Err(a) => Err(a),
+                    },
+                    Ok(Err(e)) => Err(err_kind(&e)),
+                    Err(a) => Err(a),
+                },
+                _ => match guarded(|| BrakedownPC::setup(*d, Some(4), &mut rng)) {
+                    Ok(Ok(pp)) => match guarded(|| BrakedownPC::trim(&pp, *d, 0, None)) {
+                        Ok(Ok((ck, vk))) => Ok((128, (3, 4), true, PCUniversalParams::max_degree(&pp),
+                            bytes(&ck) == bytes(&pp) && bytes(&vk) == bytes(&pp) && ck.check_well_formedness() && ck.sec_param() == 128 && PCCommitterKey::max_degree(&ck) == usize::MAX && PCVerifierKey::supported_degree(&vk) == usize::MAX)),
+                        Ok(Err(e)) => Err(err_kind(&e)),
+                        Err(a) => Err(a),
+                    },
+                    Ok(Err(e)) => Err(err_kind(&e)),
+                    Err(a) => Err(a),
+                },
+            };
+            match &obs {
+                Ok((sec, dist, wf, max, same)) => {
+                    ctx.ses.ask(&id, req, ImplOutcome::Ok(vec![
+                        ("max".into(), Expect::Nat(*max)),
+                        ("sec".into(), Expect::Nat(*sec)),
+                        ("wf".into(), Expect::Bool(*wf)),
+                        ("d0".into(), Expect::Nat(dist.0)),
+                        ("d1".into(), Expect::Nat(dist.1)),
+                        ("same".into(), Expect::Bool(*same)),
+                    ]));
+                    if *d > *max {
+                        ctx.rep.expect_fail(&id, &format!("{}/setup-beyond-report", name), "setup answered a degree above its own max_degree() report", rp("over-reported"));
+                    }
+                    if !*same {
+                        ctx.rep.expect_fail(&id, &format!("{}/trim-not-faithful", name), "trim did not hand out the parameters (or the degree reports of the keys differ from the parameters')", rp("trim"));
+                    }
+                }
+                Err(e) => {
+                    ctx.ses.ask(&id, req, ImplOutcome::Refuse(e.clone()));
+                }
+            }
+            ctx.rep.count(&format!("lincode-setup/{}/{}", name, if obs.is_ok() { "answered" } else { "refused" }));
+            ctx.rep.case(&format!("{} setup(max_degree={}) -> {:?}", name, d, obs.as_ref().map(|o| o.3)), Some(format!("lincode-setup/{}/{}", name, d)));
+        }
+    }
+    ctx.flush_model("C09-lincode");
 }
 
 // ------------------------------------------------------------------------------------------------
